@@ -127,9 +127,9 @@ func history(k int, forced []int) {
 		}
 		s := &sideRec{isSrc: ev == 0}
 		// the record's optional correlated fields: all empty / zero, or all set
-		// (the merge treats each field on its own; quick tier explores the two
-		// extremes, thorough every combination)
-		if sx.Tier() > 0 {
+		// (the merge treats each field on its own: the two extremes are explored)
+		// (independent choices per field were 0.22 M histories and 11 minutes at depth 4)
+		if sx.Param("independentFields", 0) == 1 {
 			s.rich = sx.Choose("namespaceAndNodeNonEmpty", 2) == 1
 			s.hasCIP = sx.Choose("clusterIPNonZero", 2) == 1
 		} else {
